@@ -478,7 +478,35 @@ def scenario_env(ck, stats, var, L):
     else:
         dst = sb.maildir('dst')
         conf = sb.write_conf(b'stdin {\n match all move "%s"\n}\n' % dst.encode())
-        rc, out, err = sb.run(['-'], conf=conf, env={'TMPDIR': long_dir}, stdin=b'To: a\n\nb\n')
+        # an empty directory exactly where "<TMPDIR>/mdsort-XXXXXXXX" is cut off at PATH_MAX - 1 characters (F-24: it used to be removed)
+        full = long_dir + '/mdsort-XXXXXXXX'
+        decoy = full[:PATH_MAX - 1][len(long_dir) + 1:] if len(long_dir) < PATH_MAX - 2 <= len(full) - 1 else None
+        if decoy and len(long_dir) < PATH_MAX:
+            cwd = os.getcwd()
+            try:
+                os.chdir('/')
+                for comp in long_dir.strip('/').split('/'):
+                    os.chdir(comp)
+                os.mkdir(decoy)
+            except OSError:
+                decoy = None
+            finally:
+                os.chdir(cwd)
+        for extra in (['-d'], []):
+            rc, out, err = sb.run(extra + ['-'], conf=conf, env={'TMPDIR': long_dir}, stdin=b'To: a\n\nb\n')
+            if decoy:
+                cwd = os.getcwd()
+                try:
+                    os.chdir('/')
+                    for comp in long_dir.strip('/').split('/'):
+                        os.chdir(comp)
+                    alive = os.path.isdir(decoy)
+                finally:
+                    os.chdir(cwd)
+                if not alive:
+                    ck.violation('TMPDIR of length %d%s: the empty directory at the truncation of "<TMPDIR>/mdsort-XXXXXXXX" (%r) was removed (exit %d)'
+                                 % (L, ' with -d' if extra else '', decoy, rc), {'scenario': 'TMPDIR', 'length': L})
+                    break
         stats['binary'] += 1
         moved = sb.snapshot(dst)
         if rc == 0 and len(moved) != 1:
